@@ -136,6 +136,15 @@ func (Tail) Generate(seed uint64, tier string) engine.Plan {
 		}
 		p.Producers = append(p.Producers, pr)
 	}
+	if !big && r.Chance(1, 6) {
+		// acknowledgements that arrive FAR out of order: a few ids more than 1024
+		// words (the default reclaim threshold, also the initial capacity) ahead of
+		// the window, so that the stored tail is long while the front is being
+		// compacted and reclaimed
+		ahead := r.PickInt64(1<<16-1, 1<<16, 1<<16+63, 1<<16+64, 70000, 1<<17, 200000)
+		pr := TailProducer{Start: base + ahead, Count: 1 + r.Intn(4), Stride: r.PickInt64(1, 63, 64, 1000), Order: "asc", Seed: r.Uint64()}
+		p.Producers = append(p.Producers, pr)
+	}
 	if r.Chance(1, 2) {
 		p.DupDen = r.PickInt(2, 3, 10)
 	}
@@ -160,7 +169,7 @@ func (Tail) Generate(seed uint64, tier string) engine.Plan {
 		p.Instances = 1
 		p.Threshold = 0
 	}
-	p.Sched = genSchedule(r, np+1)
+	p.Sched = genSchedule(r, len(p.Producers)+1)
 	return p
 }
 
